@@ -39,7 +39,7 @@ VARIABLES recs,     \* every record ever appended, in write order
           enti,     \* index of the last entry / snapshot marker saved
           mode,     \* "none" | "append" | "closed" | "crashed" | "read"
           opt,      \* optimized-fsync mode
-          locks,    \* first segment still locked
+          locks,    \* [l |-> first segment still locked, p |-> number of purged (removed) segments]
           img,      \* the crash image being reopened
           snapq,    \* the snapshot the image is opened at
           res       \* what the reopen returned
@@ -134,7 +134,7 @@ Create(o, m) ==
   /\ segs' = <<[first |-> 1, idx |-> 0]>>
   /\ handed' = 3 /\ pproc' = 3
   /\ synced' = (IF o THEN 0 ELSE 3) /\ ppow' = (IF o THEN 0 ELSE 3)
-  /\ enti' = 0 /\ mode' = "append" /\ opt' = o /\ locks' = 1
+  /\ enti' = 0 /\ mode' = "append" /\ opt' = o /\ locks' = [l |-> 1, p |-> 0]
   /\ UNCHANGED <<img, snapq, res>>
 
 (* Save(hs, ents, cut): entries, then the state; `cut` says that the segment   *)
@@ -176,8 +176,16 @@ ReleaseLockTo(i) ==
          keep  == IF \E k \in 1..Len(segs) : segs[k].idx >= i
                   THEN (IF below = {} THEN 1 ELSE CHOOSE k \in below : \A j \in below : j <= k)
                   ELSE Len(segs)
-     IN locks' = Max2(locks, keep)
+     IN locks' = [locks EXCEPT !.l = Max2(@, keep)]
   /\ UNCHANGED <<recs, segs, handed, synced, pproc, ppow, enti, mode, opt, img, snapq, res>>
+
+\* wal.Sync(): flush and fdatasync in both modes (the node calls it before it releases locks)
+Sync ==
+  /\ mode = "append"
+  /\ handed' = Len(recs) /\ pproc' = Len(recs)
+  /\ synced' = (IF Contiguous THEN Len(recs) ELSE synced)
+  /\ ppow' = (IF ~opt \/ Contiguous THEN Len(recs) ELSE ppow)
+  /\ UNCHANGED <<recs, segs, enti, mode, opt, locks, img, snapq, res>>
 
 Close ==
   /\ mode = "append"
@@ -187,10 +195,25 @@ Close ==
   /\ ppow' = (IF ~opt \/ Contiguous THEN Len(recs) ELSE ppow)
   /\ UNCHANGED <<recs, segs, enti, opt, locks, img, snapq, res>>
 
-\* a clean restart: Open + ReadAll of a closed log, then appending continues
-Restart ==
+\* the background purge (fileutil.PurgeFile): while more than `max` segment files exist, the
+\* oldest one is removed - unless the log still holds its lock; k is how many it removed
+MaxPurge(max) == LET a == locks.l - 1 - locks.p
+                     b == Len(segs) - locks.p - max
+                 IN IF a < b THEN Max2(a, 0) ELSE Max2(b, 0)
+Purge(max, k) ==
+  /\ mode = "append"
+  /\ k \in 1..MaxPurge(max)
+  /\ locks' = [locks EXCEPT !.p = @ + k]
+  /\ UNCHANGED <<recs, segs, handed, synced, pproc, ppow, enti, mode, opt, img, snapq, res>>
+
+\* a clean restart: Open at snapshot s + ReadAll of a closed log, then appending continues;
+\* Open locks the segment the snapshot index selects and everything after it
+SelectSeg(sg, si) == LET ok == {k \in 1..Len(sg) : sg[k].idx <= si}
+                     IN IF ok = {} THEN 0 ELSE CHOOSE k \in ok : \A j \in ok : j <= k
+Restart(s) ==
   /\ mode = "closed"
-  /\ mode' = "append" /\ locks' = 1
+  /\ SelectSeg(segs, s.i) > locks.p
+  /\ mode' = "append" /\ locks' = [locks EXCEPT !.l = SelectSeg(segs, s.i)]
   /\ UNCHANGED <<recs, segs, handed, synced, pproc, ppow, enti, opt, img, snapq, res>>
 
 -------------------------------------------------------------------------------
@@ -228,12 +251,10 @@ Flip(r) ==
 (* whole records from there while the CRC chain holds; a damaged record in the *)
 (* tail segment that shows a zero sector is a torn write and is cut off by     *)
 (* Repair; any other damage is reported.                                       *)
-SelectSeg(sg, si) == LET ok == {k \in 1..Len(sg) : sg[k].idx <= si}
-                     IN IF ok = {} THEN 0 ELSE CHOOSE k \in ok : \A j \in ok : j <= k
-
 ReadFromX(rs, sg, n, s, needMarker) ==
   LET k == SelectSeg(sg, s.i)
-  IN IF k = 0 THEN Err("filenotfound") ELSE EffectX(SubSeq(rs, sg[k].first, n), s, needMarker)
+  IN IF k = 0 \/ k <= locks.p THEN Err("filenotfound")    \* no such segment, or it was purged
+     ELSE EffectX(SubSeq(rs, sg[k].first, n), s, needMarker)
 ReadFrom(rs, sg, n, s)      == ReadFromX(rs, sg, n, s, TRUE)
 ReadFromLoose(rs, sg, n, s) == ReadFromX(rs, sg, n, s, FALSE)
 
@@ -324,6 +345,26 @@ EveryImageReopensWell ==
          /\ MustSucceed(segs, im) => (r.err = "" \/ T[im.n].err # "")
          /\ NothingInvented(recs, s, r)
 
+\* what is still on disk: the records from the first segment that was not purged
+FirstRec == IF segs = <<>> THEN 1 ELSE segs[locks.p + 1].first
+OnDisk(rs, p) == SubSeq(rs, FirstRec, p)
+Newest(V) == CHOOSE s \in V : \A x \in V : x.i <= s.i
+
+\* the prefix that survives any crash the mode gives guarantees for
+CrashFloor == IF opt THEN pproc ELSE ppow
+
+\* Purge and lock release never take away what a restart needs: whatever prefix survives a
+\* crash (process crash in both modes, power loss in the normal mode), ValidSnapshotEntries
+\* over the files that are left offers at least one marker, and the segment the newest of
+\* them selects - the one the node opens at - is still there
+PurgeKeepsWhatRestartNeeds ==
+  (mode \in {"append", "closed"} /\ locks.p > 0) =>
+    \A n \in CrashFloor..Len(recs) :
+       LET V == ValidSnaps(OnDisk(recs, n))
+       IN /\ V # {}
+          /\ SelectSeg(segs, Newest(V).i) > locks.p
+          /\ ReadFrom(recs, segs, n, Newest(V)).err = ""
+
 \* reading from the segment the snapshot index selects gives what reading the whole log
 \* gives - except that stale entries of older segments (cut off by a rewrite at or below
 \* the snapshot index, which the index filter does not see) are not resurrected
@@ -331,12 +372,14 @@ SegmentTransparent ==
   mode \in {"append", "closed"} =>
     \A s \in Markers(recs) : \A n \in pproc..Len(recs) :
        LET a == ReadFrom(recs, segs, n, s) b == Effect(Pre(recs, n), s)
-       IN a = b \/ (a.err = "" /\ b.err = "" /\ a.ents = <<>> /\ a = [b EXCEPT !.ents = <<>>])
+       IN a = b \/ a.err = "filenotfound"
+          \/ (a.err = "" /\ b.err = "" /\ a.ents = <<>> /\ a = [b EXCEPT !.ents = <<>>])
 
 \* a marker ValidSnapshotEntries offers can be opened: it is in the log and unambiguous
 ValidSnapshotsAreCommitted ==
   mode \in {"append", "closed"} =>
     \A n \in pproc..Len(recs) : \A s \in ValidSnaps(Pre(recs, n)) :
        /\ s.i <= LastState(Pre(recs, n)).c
-       /\ ReadFrom(recs, segs, n, s).err \notin {"snapnotfound", "snapmismatch", "filenotfound"}
+       /\ ReadFrom(recs, segs, n, s).err \notin {"snapnotfound", "snapmismatch"}
+       /\ (locks.p = 0 => ReadFrom(recs, segs, n, s).err # "filenotfound")
 =============================================================================
